@@ -1,7 +1,9 @@
 (* C01/Proofs.v — the state root of every put/delete history is the spec root of the map it denotes. *)
 From Common Require Import Bytes Blake2b.
-From Trie Require Import Nibbles Node Encode Model Spec NibblesProofs Sem InsertProofs DeleteProofs BuildProofs MapProofs.
+From Trie Require Import Nibbles Node Encode Model Spec NibblesProofs Sem InsertProofs DeleteProofs BuildProofs MapProofs
+     QueryProofs SpecProofs.
 From C01 Require Import Model.
+From C01 Require Gen.
 From Coq Require Import Arith Lia.
 
 Lemma run_rep ops : forall t m, Rep t m -> hits_delete_exhausted t ops = false ->
@@ -80,3 +82,90 @@ Lemma pinned_nested_delete_refuted :
   no_empty_delete witness_nested_delete = true /\
   root_pinned blake2b_256 V0 witness_nested_delete <> spec blake2b_256 V0 witness_nested_delete.
 Proof. split; [reflexivity|]. vm_compute. discriminate. Qed.
+
+(* ====================================================================================
+   Added by the audit round.
+   ==================================================================================== *)
+(* the literal constants of the Go source the statements depend on (Gen.v is regenerated from
+   pkg/trie/layout.go and pkg/trie/node/children.go on every check run) *)
+Example gen_v1_max_inline_value : Gen.v1_max_inline_value_size = Z.of_nat v1_max_inline_value.
+Proof. reflexivity. Qed.
+Example gen_children_capacity :
+  Gen.children_capacity = Z.of_nat children_capacity /\ length no_children = Z.to_nat Gen.children_capacity.
+Proof. split; reflexivity. Qed.
+
+Lemma must_be_hashed_gen ver v :
+  must_be_hashed ver v = true <-> ver = V1 /\ Z.to_nat Gen.v1_max_inline_value_size < length v.
+Proof. rewrite must_be_hashed_iff. reflexivity. Qed.
+
+(* ---- "for every finite key/value map": every sorted association list is denoted by a history,
+   and the canonical trie the specification root is computed from holds exactly that map ---- *)
+Definition history_of (m : bmap) : list op := map (fun e => Put (fst e) (snd e)) (rev m).
+
+Lemma history_of_puts m : puts_only (history_of m) = true.
+Proof.
+  unfold puts_only, history_of. apply forallb_forall. intros o Ho.
+  apply in_map_iff in Ho as (e & <- & _). reflexivity.
+Qed.
+
+Lemma map_of_history m : bm_sorted m = true -> map_of (history_of m) = m.
+Proof.
+  induction m as [|[k v] r IH]; intros S; [reflexivity|].
+  unfold map_of, history_of in *. cbn [rev]. rewrite map_app, fold_left_app. cbn [map fold_left map_step fst snd].
+  rewrite IH by (eapply bm_sorted_tail; eauto). now apply bm_put_head.
+Qed.
+
+(* the maps histories denote are sorted association lists (so [spec] is always applied to one) *)
+Lemma map_of_sorted ops : hits_delete_exhausted None ops = false -> bm_sorted (map_of ops) = true.
+Proof.
+  intros G. apply (Rep_sorted_bmap (run ops)). unfold run, map_of. apply run_rep; auto. apply Rep_empty.
+Qed.
+
+(* the statement quantified over maps: every guard-free history that denotes m has the spec root of
+   m, and at least one history (inserts only) denotes m *)
+Theorem root_of_every_map H ver m : bm_sorted m = true ->
+  (exists ops, puts_only ops = true /\ map_of ops = m) /\
+  (forall ops, hits_delete_exhausted None ops = false -> map_of ops = m ->
+     root H ver ops = spec_root_bytes H ver m).
+Proof.
+  intros S. split.
+  - exists (history_of m). split; [apply history_of_puts|now apply map_of_history].
+  - intros ops G E. rewrite root_spec by exact G. unfold spec. now rewrite E.
+Qed.
+
+(* the trie behind the specification root is the radix-16 trie OF THE MAP: it is in canonical form,
+   its in-order entry list is the map, and looking a key up in it gives the map's value *)
+Theorem spec_trie_adequate m : bm_sorted m = true ->
+  let st := build_trie (kv_of_bmap m) in
+  Canon_opt st /\ entries st = kv_of_bmap m /\
+  (forall k, lookup_opt st (key_le_to_nibbles k) = bm_get m k) /\
+  (forall t, Rep t m -> t = st).
+Proof.
+  intros S st. pose proof (build_trie_adequate m S) as R. fold st in R.
+  split; [exact (proj1 R)|]. split; [exact (proj2 R)|]. split.
+  - intros k. now apply Rep_lookup.
+  - intros t Rt. exact (Rep_unique t st m Rt R).
+Qed.
+
+(* the state after a guard-free history IS the specification trie (structural uniqueness): this is
+   what root_spec rests on; no property of the hash function is involved *)
+Theorem run_is_spec_trie ops : hits_delete_exhausted None ops = false ->
+  run ops = build_trie (kv_of_bmap (map_of ops)).
+Proof.
+  intros G. assert (R : Rep (run ops) (map_of ops)).
+  { unfold run, map_of. apply run_rep; auto. apply Rep_empty. }
+  destruct R as [C E]. rewrite <- E. symmetry. now apply build_trie_entries_opt.
+Qed.
+
+(* the encoding clauses of the statement, on the model encoder (which the specification root uses
+   too, see the note in Properties.v): a leaf with an inlined value, a hashed value, the empty trie *)
+Lemma enc_leaf_inline H ver pk v : must_be_hashed ver v = false ->
+  enc H ver (Leaf pk v) =
+  header leaf_bits 63 (N.of_nat (length pk)) ++ nibbles_to_key_le pk ++ scale_bytes v.
+Proof. intros M. cbn [enc]. unfold enc_value, node_header. now rewrite M. Qed.
+Lemma enc_leaf_hashed H ver pk v : must_be_hashed ver v = true ->
+  enc H ver (Leaf pk v) =
+  header leaf_hashed_bits 31 (N.of_nat (length pk)) ++ nibbles_to_key_le pk ++ H v.
+Proof. intros M. cbn [enc]. unfold enc_value, node_header. now rewrite M. Qed.
+Lemma v0_never_hashes v : must_be_hashed V0 v = false.
+Proof. reflexivity. Qed.
